@@ -893,8 +893,146 @@ func scenarioL0Order(c *Ctx) (*xh, error) {
 	return x, nil
 }
 
+// scenarioMarkerOnTop: the newest versions in the database are delete markers (and a
+// discard-earlier entry) that a compaction has rewritten and KEPT (they are above the discard
+// timestamp: nobody has read since); the tables' MaxVersion must cover them, so that after a clean
+// close and re-open the next commit timestamp lies above them and new commits are visible.
+func scenarioMarkerOnTop(c *Ctx) (*xh, error) {
+	h, err := newHist(c, sysOpts{Detect: true, NKeep: 1, MaxLevels: 4, VThreshold: 32, TableSize: 1 << 20, BaseLevelSize: 8 << 10})
+	if err != nil {
+		return nil, err
+	}
+	x := &xh{hist: h, keys: [][]byte{[]byte("a"), []byte("b"), []byte("c"), []byte("d")}}
+	defer h.close()
+	h.commit1(0, []byte("a"), []byte("va"), []byte("b"), []byte("vb"))
+	h.commit1(1, []byte("c"), []byte("vc"))
+	// no reader from here on: the read watermark (= discard timestamp) stays below these
+	h.begin(2, true, 0)
+	h.modify(2, []byte("a"), nil, mDelete, 0, 0)
+	h.commit(2, 0)
+	h.begin(3, true, 0)
+	h.modify(3, []byte("b"), nil, mDelete, 0, 0)
+	h.commit(3, 0)
+	h.begin(4, true, 0)
+	h.modify(4, []byte("c"), []byte("vc2"), mDiscard, 0, 0)
+	h.commit(4, 0)
+	if err := h.flush(); err != nil {
+		return x, err
+	}
+	if ok, err := h.compact(0, false, nil); err != nil || !ok {
+		return x, fmt.Errorf("scenario marker-on-top: compaction did not run (%v)", err)
+	}
+	h.dump()
+	if err := x.reopen(false, 0); err != nil {
+		return x, err
+	}
+	h.begin(10, true, 0)
+	h.modify(10, []byte("d"), []byte("after-reopen"), 0, 0, 0)
+	h.modify(10, []byte("a"), []byte("again"), 0, 0, 0)
+	x.commitChecked(10, 0)
+	h.begin(11, false, 0)
+	for _, k := range x.keys {
+		h.get(11, k)
+	}
+	h.discard(11)
+	x.someGetAts(4)
+	if err := x.closeDB(); err != nil {
+		return x, err
+	}
+	return x, nil
+}
+
+// scenarioMaxKeyReopen (oracle only: 65000-byte keys are not put into Coq case files): keys at and
+// just below the maximum key size, with values in the value log and inline, must read back after a
+// clean close and a read-write re-open (the log replay's sanity bound on key lengths must admit
+// every key the API accepts), also after a second re-open and after new writes.
+func scenarioMaxKeyReopen(c *Ctx) error {
+	dir := filepath.Join(os.Getenv("VERIF_SCRATCH_DIR"), "maxkey")
+	os.RemoveAll(dir)
+	defer os.RemoveAll(dir)
+	o := sysOpts{NKeep: 1, MaxLevels: 4, VThreshold: 32, TableSize: 1 << 20, BaseLevelSize: 8 << 10, MemSize: 4 << 20}
+	db, err := openSysDB(dir, o)
+	if err != nil {
+		return err
+	}
+	want := map[string][]byte{}
+	mk := func(n int, tag byte) []byte {
+		k := bytes.Repeat([]byte{tag}, n)
+		copy(k, fmt.Sprintf("max-%d-", n))
+		return k
+	}
+	i := 0
+	for _, n := range []int{65000, 64999, 64993, 64992, 64000, 10} {
+		for _, vl := range []int{200, 5} {
+			k := mk(n, byte('a'+i))
+			v := bytes.Repeat([]byte{byte('0' + i)}, vl)
+			i++
+			if err := db.Update(func(tx *badger.Txn) error { return tx.Set(k, v) }); err != nil {
+				c.Oracle(false, "c07-max-size-key-rejected", "a key of at most 65000 bytes was rejected: "+err.Error(), J{"len": n})
+				continue
+			}
+			want[string(k)] = v
+		}
+	}
+	check := func(db *badger.DB, where string) {
+		var bad []string
+		db.View(func(tx *badger.Txn) error {
+			for k, v := range want {
+				it, err := tx.Get([]byte(k))
+				if err != nil {
+					bad = append(bad, fmt.Sprintf("key of %d bytes: %v", len(k), err))
+					continue
+				}
+				got, err := it.ValueCopy(nil)
+				if err != nil || !bytes.Equal(got, v) {
+					bad = append(bad, fmt.Sprintf("key of %d bytes: value of %d bytes read back as %d bytes (err %v)", len(k), len(v), len(got), err))
+				}
+			}
+			return nil
+		})
+		sort.Strings(bad)
+		if len(bad) > 5 {
+			bad = bad[:5]
+		}
+		c.Oracle(len(bad) == 0, "c07-max-size-key-value-differs-"+where, "a value stored under a key near the maximum key size reads back differently "+where, J{"mismatches": bad})
+	}
+	check(db, "before-close")
+	for round := 0; round < 2; round++ {
+		if err := db.Close(); err != nil {
+			return err
+		}
+		db, err = openSysDB(dir, o)
+		if err != nil {
+			c.Oracle(false, "c07-reopen-fails-with-max-size-keys", err.Error(), J{"round": round})
+			return nil
+		}
+		check(db, "after-reopen")
+		k := mk(65000-round, byte('q'+round))
+		v := bytes.Repeat([]byte{'z'}, 300)
+		if db.Update(func(tx *badger.Txn) error { return tx.Set(k, v) }) == nil {
+			want[string(k)] = v
+		}
+	}
+	check(db, "after-second-reopen")
+	c.Count("max-key-reopen-scenario")
+	return db.Close()
+}
+
 func runReopenProfile(c *Ctx, mk func(i int) *rprofile) error {
 	c.Setup("Keys Spec Lsm Compact Iter Sys SysReopen CorrReopen", "run_case")
+	if c.Prop == "C07" {
+		if err := scenarioMaxKeyReopen(c); err != nil {
+			return err
+		}
+	}
+	if sx, err := scenarioMarkerOnTop(c); err != nil {
+		if sx != nil {
+			c.Oracle(false, "harness-error:scenario-marker-on-top", err.Error(), J{"history": sx.desc})
+		}
+		return err
+	} else {
+		c.Case("scenario-marker-on-top", sx.term(), histInput(sx.hist))
+	}
 	if sx, err := scenarioL0Order(c); err != nil {
 		if sx != nil {
 			c.Oracle(false, "harness-error:scenario-l0-order", err.Error(), J{"history": sx.desc})
